@@ -619,6 +619,8 @@ def go_cases(draw):
     route = draw(st.sampled_from(['getitem', 'loc', 'index']))
     how = draw(st.sampled_from(['setitem', 'extend_series', 'index_append']))
     read_before = draw(st.sampled_from(['none', 'values', 'len', 'repr', 'loc']))
+    # the grown frame is itself derived from a source frame (without copying its data) two times in five: the source is selected from too
+    derive = draw(st.sampled_from([None, 'to_frame_go', None, 'rename', None, 'ctor', 'relabel']))
     i, j, mask = draw(st.integers(0, 20)), draw(st.integers(0, 20)), draw(st.integers(1, 2 ** 7))
     m0 = draw(st.integers(0, 3))
     grow = draw(st.integers(1, 3))
@@ -632,7 +634,7 @@ def go_cases(draw):
         labels = sorted(draw(st.lists(st.integers(-5, 30), min_size=total, max_size=total, unique=True)))
     if draw(st.booleans()):
         labels = draw(st.permutations(labels))
-    return {'kind': kind, 'labels': list(labels), 'm0': m0, 'read_before': read_before, 'how': how, 'key': key, 'i': i, 'j': j, 'mask': mask, 'route': route}
+    return {'kind': kind, 'labels': list(labels), 'm0': m0, 'read_before': read_before, 'how': how, 'key': key, 'i': i, 'j': j, 'mask': mask, 'route': route, 'derive': derive}
 
 
 def _go_key(case, labels):
@@ -687,6 +689,12 @@ def check_go(case):
         go = ixgo_cls(labels[:m0])
     else:
         go = sf.FrameGO.from_items(list(zip(labels[:m0], vals[:m0])), index=('r0', 'r1', 'r2'), columns_constructor=ixgo_cls) if m0 else sf.FrameGO(index=('r0', 'r1', 'r2'), columns=ixgo_cls(()))
+    src0 = None
+    if case.get('derive') and not standalone and m0:
+        # `go` is derived from a source frame by a route that shares the data; only the derived frame grows afterwards
+        src0 = go if case['derive'] != 'to_frame_go' else go.to_frame()
+        go = {'to_frame_go': lambda: src0.to_frame_go(), 'rename': lambda: src0.rename(None), 'ctor': lambda: sf.FrameGO(src0),
+              'relabel': lambda: src0.relabel(columns=ixgo_cls(labels[:m0]))}[case['derive']]()
     tgt_ix = go if standalone else go.columns
     rb = case['read_before']
     if rb == 'values':
@@ -711,7 +719,7 @@ def check_go(case):
     else:
         static = sf.Frame.from_items(list(zip(labels, vals)), index=('r0', 'r1', 'r2'), columns_constructor=ix_cls)
 
-    def select(c):
+    def select(c, key=key):
         if isinstance(key, tuple) and key and key[0] == 'contains':
             return key[1] in (c if standalone else c.columns)
         if standalone:
@@ -748,7 +756,19 @@ def check_go(case):
     got2 = lib(select, go)
     if isinstance(got2, Raised) or norm(got2) != norm(want):
         raise Failure('go-differs', '%s: after a read, grown container gives %s, static twin gives %s' % (what, short(got2, 200), short(norm(want), 200)))
-    return {'nt': True, 'cls': ['go-key:' + case['key'], 'go-kind:' + kind, 'go-route:' + ('index' if standalone else case['route']), 'go-read-before:' + rb]}
+    if src0 is not None:
+        # the source the grown frame was derived from still selects as the frame of its own columns does
+        key0 = _go_key(case, labels[:m0])
+        static0 = sf.Frame.from_items(list(zip(labels[:m0], vals[:m0])), index=('r0', 'r1', 'r2'), columns_constructor=ix_cls)
+        want0, got0 = lib(select, static0, key0), lib(select, src0, key0)
+        what0 = 'source of a frame derived by %s that grew by %d columns: %s key %s' % (case['derive'], n - m0, case['route'], short(key0, 80))
+        if isinstance(want0, Raised) != isinstance(got0, Raised):
+            bad = got0 if isinstance(got0, Raised) else want0
+            raise Failure('raised:%s' % bad.cls, '%s: %s raised %r, the other returned %s' % (what0, 'the source' if bad is got0 else 'its static twin', bad.exc, short(want0 if bad is got0 else got0, 120)), bad.where)
+        if not isinstance(want0, Raised) and norm(got0) != norm(want0):
+            raise Failure('go-differs', '%s: the source gives %s, the frame of its own columns gives %s' % (what0, short(norm(got0), 200), short(norm(want0), 200)))
+    return {'nt': True, 'cls': ['go-key:' + case['key'], 'go-kind:' + kind, 'go-route:' + ('index' if standalone else case['route']), 'go-read-before:' + rb,
+                                'go-derived:%s' % (case.get('derive') if src0 is not None else None)]}
 
 
 EXHAUSTIVE = {'quick': False, 'thorough': False}
